@@ -175,6 +175,15 @@ def reuse_instance():
         for _ in range(inp['hist'] if which != 'cbmm' else min(inp['hist'], 1)):
             yh, ih = data(D, int(rng.randint(2, 4)))         # same D (a trainer is bound to its dimension), other data / class count
             fit(reused, yh, ih)
+        if inp['seed'] % 2:
+            # block processing: the trainer has just served the SAME array objects with other content; the caller refills its buffers
+            # in place for the next block
+            y_now, init_now = y.copy(), init.copy()
+            y[...] = data(D, K)[0]
+            init[...] = data(D, K)[1]
+            fit(reused, y, init)
+            y[...] = y_now
+            init[...] = init_now
         r1 = fit(reused, y, init)
         r2 = fit(cls(), y, init)
         r3 = fit(reused, y, init)
